@@ -209,7 +209,15 @@ def dispatch(rep, ex: Explorer, report=True):
 
 
 # ----------------------------------------------------------------------------------------------
-def refuse(rep, ex: Explorer):
+def refuse(rep, ex: Explorer, rules=None):
+    rep.only = set(rules) if rules else None
+    try:
+        return _refuse(rep, ex)
+    finally:
+        rep.only = None
+
+
+def _refuse(rep, ex: Explorer):
     """REFUSE / PREPROC.once / TIMEOUT.preproc on Inference.preprocess_belief_base."""
     qual = f"{INF}.preprocess_belief_base"
     site = fn_label(ex.prog, qual)
@@ -286,7 +294,15 @@ def refuse(rep, ex: Explorer):
     rep.floor("paths reaching _preprocess_belief_base", n_del, 3)
 
 
-def refuse_manager(rep, ex: Explorer):
+def refuse_manager(rep, ex: Explorer, rules=None):
+    rep.only = set(rules) if rules else None
+    try:
+        return _refuse_manager(rep, ex)
+    finally:
+        rep.only = None
+
+
+def _refuse_manager(rep, ex: Explorer):
     """InferenceManager.inference calls the wrapper before inference on every path; Inference.inference refuses
     when neither done nor timed out."""
     qual = f"{INF}.inference"
@@ -438,7 +454,15 @@ def _enclosing_test(fnode, target):
 
 
 # ----------------------------------------------------------------------------------------------
-def rows(rep, ex: Explorer, which=("single", "worker", "multi", "manager")):
+def rows(rep, ex: Explorer, which=("single", "worker", "multi", "manager"), rules=None):
+    rep.only = set(rules) if rules else None
+    try:
+        return _rows(rep, ex, which)
+    finally:
+        rep.only = None
+
+
+def _rows(rep, ex: Explorer, which=("single", "worker", "multi", "manager")):
     """ROWS.key / TIMEOUT.row / PAR.key / PAR.join on the query wrappers."""
     prog = ex.prog
     stats = {}
